@@ -82,15 +82,16 @@ func compare(s *stats.StreamStats, xs []float64, label string) error {
 		if sd > 0 {
 			kappa = 1 + math.Abs(mean)/sd
 		}
-		tolV := cF * nf * eps * kappa * vf
-		if vf == 0 {
+		// 1e-300: squared deviations below the smallest normal float lose bits to (gradual) underflow
+		tolV := cF*nf*eps*kappa*vf + 1e-300
+		if v.Sign() == 0 {
 			tolV = 0
 		}
 		if !(math.Abs(s.Variance()-vf) <= tolV) {
 			return fmt.Errorf("%s: Variance = %.17g, exact %.17g (tol %.3g, kappa %.3g)", label, s.Variance(), vf, tolV, kappa)
 		}
 		ev.MaxErr("variance", math.Abs(s.Variance()-vf)/(tolV+1e-300))
-		tolSD := cF * nf * eps * kappa * sd
+		tolSD := cF*nf*eps*kappa*sd + 1e-150 // the square root of what the variance may lose to underflow
 		if !(math.Abs(s.StdDev()-sd) <= tolSD) {
 			return fmt.Errorf("%s: StdDev = %.17g, exact %.17g", label, s.StdDev(), sd)
 		}
@@ -217,7 +218,43 @@ const rule = "StreamStats: rapid-generated histories over 1..6 accumulators of u
 	"bit-identical. Plus: every split point of generated streams, both merge directions. Non-trivial: a Combine with a non-empty " +
 	"side occurred and the accumulator holds >=2 values. distinct = canonical JSON of the history."
 
+// drawValues returns the source of the values of one case. A stream is not always stationary:
+// in a quarter of the cases the very first value (the one an algorithm would take as its
+// provisional centre), or a value somewhere in the middle, lies far from the cluster formed by
+// all the others, or the level shifts once.
 func drawValues(t *rapid.T) func(label string) float64 {
+	f, spread := drawStationary(t)
+	switch rapid.IntRange(0, 11).Draw(t, "nonStationary") {
+	case 0, 1: // an outlier first (or at position k): distance 20 .. 1e6 spreads
+		at := 1
+		if rapid.IntRange(0, 2).Draw(t, "outlierLater") == 0 {
+			at = rapid.IntRange(2, 150).Draw(t, "outlierAt")
+		}
+		d := gen.Sign(t, "outlierSign") * spread * gen.LogUniform(t, 20, 1e6, "outlierDistance")
+		count := 0
+		return func(label string) float64 {
+			count++
+			if count == at {
+				return f(label) + d
+			}
+			return f(label)
+		}
+	case 2: // a level shift
+		at := rapid.IntRange(1, 150).Draw(t, "shiftAt")
+		d := gen.Sign(t, "shiftSign") * spread * gen.LogUniform(t, 20, 1e6, "shiftBy")
+		count := 0
+		return func(label string) float64 {
+			count++
+			if count > at {
+				return f(label) + d
+			}
+			return f(label)
+		}
+	}
+	return f
+}
+
+func drawStationary(t *rapid.T) (func(label string) float64, float64) {
 	spread := gen.LogUniform(t, 1e-3, 1e3, "spread")
 	ratio := 0.0
 	switch rapid.IntRange(0, 2).Draw(t, "offsetKind") {
@@ -239,7 +276,7 @@ func drawValues(t *rapid.T) func(label string) float64 {
 				x = math.Nextafter(x, math.Inf(1))
 			}
 			return x
-		}
+		}, math.Abs(b) * 1e-15
 	}
 	if rapid.IntRange(0, 3).Draw(t, "pool") == 0 {
 		// a small pool of exactly representable values: runs of identical values, parts with
@@ -248,12 +285,12 @@ func drawValues(t *rapid.T) func(label string) float64 {
 		base := math.Round(offset)
 		return func(label string) float64 {
 			return base + float64(rapid.IntRange(0, k-1).Draw(t, label))
-		}
+		}, 1
 	}
 	return func(label string) float64 {
 		// quantised: rapid's floats include values like 1e-155 whose square underflows
 		return offset + spread*math.Round(rapid.Float64Range(-1, 1).Draw(t, label)*1e6)/1e6
-	}
+	}, spread
 }
 
 func drawHistory(rt *rapid.T, maxAcc, maxSteps int, val func(string) float64) *Case {
